@@ -259,6 +259,85 @@ def run(tier, seed, replay):
                     except Exception as e:
                         v(f"raises:{which}:{method}", f"{cfg}: {type(e).__name__}: {e}"[:240], cfg)
                         continue
+    # ------------------------------------------------------------------ unevenly spaced output times: the reported records stay consistent
+    uneven = np.array([0.0, 0.1, 0.15, 0.4, 0.5, 0.8])
+    for which, methods in (("sme", sme_methods), ("sse", sse_methods)):
+        for method in methods:
+            for het in (False, True):
+                for conv in ("start", "end", "middle"):
+                    if tier == "quick" and rng.random() < 0.5:
+                        continue
+                    cfg = {"eq": which, "method": method, "heterodyne": het, "convention": conv, "tlist": "uneven"}
+                    try:
+                        with warnings.catch_warnings():
+                            warnings.simplefilter("ignore")
+                            with core.time_limit(240):
+                                s, st, sc = make(which, method, het, 2, False, 0.05, meas=conv)
+                                r = s.run(st, uneven, ntraj=1, seeds=[31])
+                    except core.CaseTimeout:
+                        raise
+                    except Exception as e:
+                        v(f"raises:{which}:{method}", f"{cfg}: {type(e).__name__}: {e}"[:240], cfg)
+                        continue
+                    rep.evaluations += 1
+                    rep.count("uneven-tlist")
+                    dWr = np.asarray(r.dW[0])
+                    Wr = np.asarray(r.wiener_process[0])
+                    M = np.asarray(r.measurement[0])
+                    states = r.runs_states[0]
+                    flat_dw = dWr.reshape(-1, dWr.shape[-1])
+                    flat_W = Wr.reshape(-1, Wr.shape[-1])
+                    if np.abs(np.cumsum(flat_dw, axis=1) - flat_W[:, 1:]).max() > 1e-12 or np.abs(flat_W[:, 0]).max() > 0:
+                        v(f"wiener-cumsum:{which}:{method}", f"wiener_process is not the running sum of the increments on an uneven tlist ({cfg})", cfg)
+                    dts = np.diff(uneven)
+                    fac = np.sqrt(2.0) if het else 1.0
+                    for i, c in enumerate(sc):
+                        cq = c if isinstance(c, qutip.Qobj) else c(0)
+                        quads = [cq + cq.dag()] if not het else [cq + cq.dag(), -1j * (cq - cq.dag())]
+                        for qi, mop in enumerate(quads):
+                            e = np.array([float(np.real(qutip.expect(mop, x))) for x in states])
+                            ee = e[:-1] if conv == "start" else (e[1:] if conv == "end" else 0.5 * (e[1:] + e[:-1]))
+                            row_m = M[i][qi] if het else M[i]
+                            row_dw = dWr[i][qi] if het else dWr[i]
+                            if np.abs(ee + fac * row_dw / dts - row_m).max() > 1e-9:
+                                v(f"measurement-identity-uneven:{which}:{method}", f"uneven tlist, store_measurement='{conv}': measurement != <M> + dW/dt per interval ({cfg}): {np.abs(ee + fac * row_dw / dts - row_m).max():.2e}", cfg)
+    # ------------------------------------------------------------------ schemes of order 1.5 draw the same noise for the same seed: they must approach each other at their order
+    pairs15 = [m for m in ("explicit1.5", "taylor1.5", "taylor1.5_imp") if m in sme_methods]
+    if len(pairs15) >= 2:
+        # (two homodyne channels with non-commuting operators are left out: the order-1.5 schemes neglect
+        #  the Levy areas, so they need not approach each other there)
+        for het, nsc in ((True, 1), (False, 1)):
+            dists = {m: [] for m in pairs15[1:] + [pairs15[0]] if m != "taylor1.5"}
+            steps = [0.02, 0.01, 0.005] if tier == "quick" else [0.02, 0.01, 0.005, 0.0025]
+            ok = True
+            for dt in steps:
+                fin = {}
+                for m in pairs15:
+                    try:
+                        with warnings.catch_warnings():
+                            warnings.simplefilter("ignore")
+                            with core.time_limit(300):
+                                s, st, _ = make("sme", m, het, nsc, True, dt)
+                                rr = s.run(st, [0, 0.4], ntraj=4, seeds=[77, 78, 79, 80])
+                                fin[m] = [x[-1].full() for x in rr.runs_states]
+                    except core.CaseTimeout:
+                        raise
+                    except Exception as e:
+                        v(f"raises:sme:{m}", f"order-1.5 comparison: {type(e).__name__}: {e}"[:200])
+                        ok = False
+                if not ok or "taylor1.5" not in fin:
+                    break
+                for m in dists:
+                    if m in fin:
+                        dists[m].append(float(np.mean([np.abs(a - b).max() for a, b in zip(fin[m], fin["taylor1.5"])])))
+            if ok:
+                for m, ds in dists.items():
+                    if len(ds) == len(steps) and ds[-1] > 0:
+                        slope = float(np.polyfit(np.log(steps), np.log(np.maximum(ds, 1e-16)), 1)[0])
+                        rep.notes.setdefault("order15_slopes", {})[f"{m}/het={het}/n_sc={nsc}"] = {"distances": ds, "slope": slope}
+                        rep.evaluations += 1
+                        if slope < 1.15 and ds[-1] > 1e-7:
+                            v(f"order-1.5:{m}", f"{m} and taylor1.5 driven by the same noise (heterodyne={het}, {nsc} channels, time-dependent system) approach each other only as dt^{slope:.2f}: distances {['%.2e' % x for x in ds]}", {"scheme": m, "distances": ds})
     # ------------------------------------------------------------------ reporting more often does not change the trajectory
     coarse_t = np.linspace(0, 0.6, 4)
     fine_t = np.linspace(0, 0.6, 13)
